@@ -249,14 +249,16 @@ def run(src):
     try:
         with reports.handle_reports(lambda p, i, *l: diags.append(("W" if p is reports.warning else "E", i, [(repr(a), repr(b)) for a, b, _ in l]))):
             f = parse("/t/p.mac", src)
-            base, code = Compiler().compile_and_link_files([f])
-        return ["ok", base, code.hex(), diags]
+            comp = Compiler()
+            base, code = comp.compile_and_link_files([f])
+            listing = comp.generate_listing()          # the listing is one of the files written
+        return ["ok", base, code.hex(), diags, listing]
     except reports.UnrecoverableError:
         return ["fail", diags]
     except Exception as e:
         return ["crash", type(e).__name__, diags]
 PROBE = "a: mov #a, r0\n1$: sob r0, 1$\n .word a, b-a, .\n .ascii \"hi\"\nb: .byte 1, 2\n x = b - a\n .word x\n .repeat 2 { nop }\n br a\n .word undefined_sym\n"
-PROBE_OK = PROBE.replace(" .word undefined_sym\n", "")
+PROBE_OK = PROBE.replace(" .word undefined_sym\n", "") + "same5 = 5\nalso5 = 5\nfive = 5\nmid: other: last:\n zeta = 7\n alpha = 7\n"
 POOL = ["nop\n", "mov r0\n", ".word 200000\n", "a: a:\n", "br 1000\n", ".link 100\n.link 200\n", "clr (%%y)+\ny=1\n", ".align 0\n",
         ".blkb 100000\n.blkb 100000\nmake_bin\n", ".rad50 \"#\"\n", ".error oops\n", "l: .word l\n .even\n", ".repeat 3 { .word . }\n", "mov (, r0\n", "\"unterminated\n"]
 # programs that fail late (at link time, with many symbols), deep expressions and long dependency chains: histories that stress interpreter-level state
